@@ -156,8 +156,14 @@ def main():
         else:
             sample = int(args[1])
         args = args[2:]
+    only = None
+    if args[:1] == ["--survivors"]:
+        # re-run the survivors (in modelled functions) of the last run
+        prev = json.load(open(os.path.join(V, "mutants", "MUTATION_RESULTS.json")))
+        only = {(x["pkg"], x["file"], x["line"], x["op"]) for x in prev["survivors"] if x.get("function_on_model_path")}
+        args = args[1:]
     pkgs = args or list(oc.PKGS)
-    work = [m for p in pkgs for m in mutants(p)]
+    work = [m for p in pkgs for m in mutants(p) if only is None or (m[0], m[1], m[2] + 1, m[5]) in only]
     if sample and sample < len(work):
         random.Random(1).shuffle(work)
         work = sorted(work[:sample])
@@ -189,8 +195,9 @@ def main():
     print(json.dumps(counts, sort_keys=True))
     for s in covered:
         print(f"SURVIVOR {s['pkg']}/{s['file']}:{s['line']} {s['func']} [{s['op']}]  {s['old']}   =>   {s['new']}")
+    out = "MUTATION_RESULTS.json" if only is None else "MUTATION_RERUN.json"
     json.dump({"counts": counts, "survivors": survivors, "reported": reported},
-              open(os.path.join(V, "mutants", "MUTATION_RESULTS.json"), "w"), indent=1)
+              open(os.path.join(V, "mutants", out), "w"), indent=1)
 
 
 if __name__ == "__main__":
